@@ -552,6 +552,16 @@ def final_state_monitors(props, start_dump, oplist, leaf):
         for op, st in zip(oplist, sts):
             if op['op'] in allowed and st not in allowed[op['op']]:
                 out.append(('c19:race:status:%s:%s' % (op['op'], st), 'statuses %s for %s' % (sts, kinds)))
+        # a name that did not exist is created ONCE: of the requests creating it (and none deleting it) exactly one may
+        # answer 201, the others met an existing name (204 / 409)
+        creators = {}
+        for op, st in zip(oplist, sts):
+            if op['op'] in ('rc_post', 'rc_put', 'trait_put'):
+                creators.setdefault((op['op'].split('_')[0], op['name']), []).append(st)
+        deleted = {(op['op'].split('_')[0], op['name']) for op in oplist if op['op'] in ('rc_delete', 'trait_delete')}
+        for key, ss in creators.items():
+            if key not in deleted and ss.count(201) > 1:
+                out.append(('c19:race:created-twice:%s' % kinds, '%s %s: statuses %s' % (key[0], key[1], sts)))
     if 'C09' in props:
         for e in mon.forest_errors(d['rps']):
             out.append(('c09:race:forest:%s' % kinds, e))
@@ -698,6 +708,8 @@ def pick_race(rng, g, v, profile):
                 op['cs'][0]['allocs'] = []
                 if rng.random() < 0.5:
                     op['cs'].reverse()
+        if k == 'alloc_delete' and rng.random() < 0.8:
+            op['consumer'] = cons
         if k == 'aggs_set' and 'mv' in op:
             op['mv'] = rng.choice([39, 39, 19, 18])
             op['gen'] = v.rps.get(op['uuid'], {}).get('gen', 0) if op['mv'] >= 19 else None
@@ -738,6 +750,20 @@ def pick_race(rng, g, v, profile):
             other['c'] = w
         else:
             other['cs'] = [w] + [c for c in other['cs'] if c['uuid'] != cu][:1]
+    # directed variant: a POST naming several consumers whose LATER entry is rejected by `ensure_consumer` (stale
+    # consumer generation) after an EARLIER entry - an existing consumer with allocations, carrying its current generation -
+    # has been validated: the rejection must leave that consumer alone
+    mposts = [o for o in out if o['op'] == 'alloc_post' and o['mv'] >= 28]
+    if mposts and holders and rng.random() < profile.get('p_late_reject', 0.15):
+        mp = mposts[0]
+        first = rng.choice(holders)
+        second = rng.choice([c for c in gen.CONSUMERS if c != first])
+        e1 = g.consumer_req(v, mp['mv'], first, empty_ok=False)
+        e1['gen'] = v.consumers[first]['gen']
+        e2 = g.consumer_req(v, mp['mv'], second, empty_ok=False)
+        cur2 = v.consumers.get(second)
+        e2['gen'] = (cur2['gen'] + 1) if cur2 else 3
+        mp['cs'] = [e1, e2]
     # project / user / consumer-type names no request has used before, the SAME in all racing writes: the records are
     # created on first use (look-up, then insert), and losing that race must not surface
     if rng.random() < profile.get('p_new_names', 0.15):
